@@ -134,6 +134,8 @@ func c10Scenario(r *sim.Run) {
 	o.groups = []stSubnetGroup{{1, true, []string{"192.0.2.0/28", "2001:db8:1::/124"}}, {1, false, []string{"192.0.2.64/28", "2001:db8:1::40/124"}}}
 	o.workers = 2
 	o.realDetector = true
+	// a station that crashes publishes no Clear: the detector keeps every diversion
+	o.panicSig = "C10/station-crashed"
 	w := newStWorld(r, s, tp, o)
 	if w == nil {
 		return
@@ -522,7 +524,46 @@ func c10Scenario(r *sim.Run) {
 				return
 			}
 		}
-		// shutdown: Cleanup must empty the detector's table
+		// shutdown: Cleanup must empty the detector's table. The stop request may arrive while a worker
+		// is in the middle of a registration (its liveness probe has not returned yet): as in main(),
+		// the context is cancelled, the pipeline is waited for, and only then Cleanup runs.
+		if !o.noIngest && tp.Bool("stop-with-registration-in-flight") {
+			c, err := w.newClient(90, pb.TransportType_Min, nil)
+			if err != nil {
+				r.Fail("harness/c10-client", "%v", err)
+				return
+			}
+			c.v6 = false
+			g := &c10Reg{c: c, regstr: c.regAddr.String(), at: time.Now()}
+			g.ph[0], g.port[0] = c.phantom(false), c.dstPort(false)
+			g.msg = c.regMessage(nil)
+			regs = append(regs, g)
+			w.holdProbes.Store(true)
+			w.register(g.msg)
+			r.Logf("stop request while the registration of %s is being probed", c.phantom(false))
+			r.Probe("stop_with_registration_in_flight")
+			w.cancel()
+			w.settle()
+			early := w.ingestDone
+			if early {
+				// the pipeline says it is done: main() goes on to Cleanup
+				w.rm.Cleanup()
+				w.settle()
+			}
+			w.holdProbes.Store(false)
+			for k := 0; k < 50 && !w.ingestDone; k++ {
+				w.settle()
+				time.Sleep(100 * time.Millisecond)
+			}
+			w.settle()
+			if !consume() {
+				return
+			}
+			if !early && !w.ingestDone {
+				r.Fail("C10/shutdown-hangs", "the ingest pipeline did not return after the stop request although the probe it was waiting for has returned")
+				return
+			}
+		}
 		before := len(det.sessions)
 		w.rm.Cleanup()
 		w.settle()
